@@ -20,11 +20,11 @@ Definition ignores_underb (mk : modk) : bool :=
   match mk with
   | MWith | MOff | MAbove | MBelow | MFork | MBracket | MTry | MDipN _
   | MReduce | MScan | MFold | MRows | MEach | MInventory | MTable | MTuples | MGroup | MPartition
-  | MSpawn | MPool | MRepeat => true
+  | MSpawn | MPool | MRepeat | MRepeatWithInverse | MStencil | MReduceContent | MReduceDepth _ => true
   | _ => false end.
 (** modifiers checked in context whose run-time form uses the stored signature: it must be the inferred one *)
 Definition needs_exactb (mk : modk) : bool :=
-  match mk with MBy | MRows | MEach | MInventory | MRepeat => true | _ => false end.
+  match mk with MBy | MRows | MEach | MInventory | MRepeat | MRepeatWithInverse => true | _ => false end.
 
 Section Ok.
   Variable asm : list node.
@@ -76,19 +76,19 @@ Definition mod_modelled (mk : modk) (nargs : nat) : bool :=
   match mk, nargs with
   | (MDip | MGap | MOn | MBy | MWith | MOff | MAbove | MBelow | MBoth | MCase | MDipN _
      | MReduce | MScan | MFold | MRows | MEach | MInventory | MTable | MTuples | MGroup | MPartition
-     | MSpawn | MPool | MRepeat), 1 => true
-  | (MFork | MBracket | MFill | MTry), 2 => true
+     | MSpawn | MPool | MRepeat | MStencil | MReduceContent | MReduceDepth _), 1 => true
+  | (MFork | MBracket | MFill | MTry | MRepeatWithInverse), 2 => true
   | _, _ => false end.
 Fixpoint exec_modelled (n : node) : bool :=
   match n with
-  | Push _ | Prim _ _ _ | Call _ _ | Unpack _ _ | PushUnder _ | CopyToUnder _ | PopUnder _
+  | Push _ | Prim _ _ _ | Call _ _ | CallGlobal _ _ | BindGlobal | Unpack _ _ | PushUnder _ | CopyToUnder _ | PopUnder _
   | Label | RemoveLabel | Format _ | SetOutputComment => true
   | Run ns => forallb exec_modelled ns
   | Mod mk args => mod_modelled mk (length args) && forallb (fun a : sig * node => exec_modelled (snd a)) args
   | Arr _ i _ | NoInline i | TrackCaller _ i => exec_modelled i
   | CustomInv _ has _ i => negb has || exec_modelled i
   | Switch brs _ _ => forallb (fun a : sig * node => exec_modelled (snd a)) brs
-  | PrimIndet _ | CallGlobal _ _ | CallMacro _ _ | BindGlobal | MatchFormat _ | Dynamic _ => false
+  | PrimIndet _ | CallMacro _ _ | MatchFormat _ | Dynamic _ => false
   end.
 (** 0 = inside the premises and fully run by the model; 4 = inside the premises but some construct
     is outside the interpreter model (iterating modifiers, loops, globals...) *)
